@@ -119,3 +119,60 @@ Example C11_continuation_example :
      (mkPst Qc Qc Qc (Q2Qc 1) (Q2Qc 1) (Q2Qc 1)) (Q2Qc 1) (Q2Qc 1)
   = single Qc Qc Qc (fun g => g) (fun p => p) toy_normW toy_maps 2 5 (mkPst Qc Qc Qc (Q2Qc 1) (Q2Qc 1) (Q2Qc 1)).
 Proof. vm_compute. reflexivity. Qed.
+
+(** ** Tie of the reader to the source by translation (second wave).  [Gen/Gen_H5Index.v] is regenerated
+    from HDF5File::readPhaseSpace, PhaseSpace::setSize and main() on every run
+    (translate/h5index2coq.py): the record selection in 64-bit unsigned arithmetic, per rank the
+    hyperslab start / count vectors, the memory space, the arguments of setSize, the acceptance
+    test and which branch reads, main()'s grid-size test.  [gen_read_ps] (Proofs/H5IndexP.v)
+    assembles them with what the library does with a hyperslab (Model/H5Slab.v). *)
+From Inovesa Require Import Model.H5Slab Gen.Gen_H5Index Proofs.H5SlabP Proofs.H5IndexP.
+
+(** the reader assembled from the source is the model's [read_ps], for every file whose extents are
+    hsize_t values (so C11_read_back_exact, C11_unusable_start_refused and
+    C11_accepted_start_is_single_bunch are statements about it) *)
+Theorem C11_source_read_is_model :
+  forall (A : Type) (d : A) (f : startfile A) step,
+    hsize_dims f -> gen_read_ps d f step = read_ps d f step.
+Proof. exact (@gen_read_ps_is_model). Qed.
+Print Assumptions C11_source_read_is_model.
+
+(** the chosen record, on the generated selection expression *)
+Theorem C11_source_chosen_record :
+  forall dims step, let len := nth 0 dims 0 in 0 < len < 2 ^ 63 ->
+    gen_use_step dims (-1) = len - 1 /\
+    (0 <= step < len -> gen_use_step dims step = step) /\
+    (- len <= step < 0 -> gen_use_step dims step = len + step).
+Proof. exact gen_chosen_record. Qed.
+Print Assumptions C11_source_chosen_record.
+
+(** read-back through the generated reader *)
+Theorem C11_source_read_back_exact :
+  forall (A : Type) (d : A) (recs : list (list A)) n step,
+    0 < n < 2 ^ 64 -> recs <> [] -> (forall x, In x recs -> Z.of_nat (length x) = n * n) ->
+    let len := Z.of_nat (length recs) in len < 2 ^ 64 ->
+    gen_read_ps d (@PSset A [len; 1; n; n] (concat recs)) step
+    = Some (n, nth (Z.to_nat (use_step len step)) recs []).
+Proof. exact (@gen_read_back_exact). Qed.
+Print Assumptions C11_source_read_back_exact.
+
+(** refusals through the generated reader: multi-bunch files, files whose slab does not fit, ... *)
+Theorem C11_source_unusable_refused :
+  forall (A : Type) (d : A) (f : startfile A) step, hsize_dims f -> unusable f -> gen_read_ps d f step = None.
+Proof. exact (@gen_unusable_refused). Qed.
+Print Assumptions C11_source_unusable_refused.
+
+(** main(): the start distribution is used iff the reader accepted it and its grid size is GridSize *)
+Theorem C11_source_gridsize_refused :
+  forall (A : Type) gridsize (r : option (Z * list A)) g,
+    start_from_h5 gen_main_refuses_gridsize gridsize r = Some g <-> r = Some (gridsize, g).
+Proof. exact (@gen_gridsize_refusal). Qed.
+Print Assumptions C11_source_gridsize_refused.
+
+Example C11_source_example :
+  gen_read_ps 0 (@PSset Z [2; 1; 2; 2] [1; 2; 3; 4; 5; 6; 7; 8]) (-1) = Some (2, [5; 6; 7; 8]) /\
+  gen_read_ps 0 (@PSset Z [2; 2; 2] [1; 2; 3; 4; 5; 6; 7; 8]) 0 = Some (2, [1; 2; 3; 4]) /\
+  gen_read_ps 0 (@PSset Z [2; 2; 2; 2] [1; 2; 3; 4; 5; 6; 7; 8; 1; 2; 3; 4; 5; 6; 7; 8]) (-1) = None /\
+  start_from_h5 gen_main_refuses_gridsize 3 (Some (2, [5; 6; 7; 8])) = None /\
+  gen_use_step [5; 1; 2; 2] (-2) = 3.
+Proof. vm_compute. repeat split. Qed.
